@@ -13,7 +13,9 @@ RULE = ("dyadic trees (1-14 leaves quick, up to 40 thorough; polytomies, unary n
         "x operation (calc_node_ages x precision x forcing x wrapper, resolve_node_depths/ages, calc_node_root_distances, "
         "set_edge_lengths_from_node_ages x min length x error flag, num_lineages_at x distance, length, min/max leaf distance, "
         "N_bar, sackin x 4 normalisations, colless x 4, B1, treeness, gamma). thorough adds every shape <= 6 leaves x every tip perturbed "
-        "x both signs x k sweep, and every statistic on every shape <= 7 leaves. non-trivial = non-ultrametric, or polytomous/unary, "
+        "x both signs x k sweep, and every statistic on every shape <= 7 leaves. Half of the trees live in a taxon namespace that does "
+        "not coincide with their tip set (holes in the taxon bits = members on no tip, tips without taxon), and the statistics are also "
+        "taken on trees after the library's prune_taxa (pruned members stay in the namespace); definitions always computed on the tree's own tips. non-trivial = non-ultrametric, or polytomous/unary, "
         "or a perturbation/forcing/normalisation option is in play")
 MODELLED_NOT_VERIFIED = [
     "C17: Model/C17.lean is hand-written from Tree.calc_node_ages / set_edge_lengths_from_node_ages / resolve_node_depths / "
@@ -480,11 +482,21 @@ def op_stats(ctx, D, case):
     out = []
     results = {}
 
+    def build(key):
+        """the tree of case[key]; with case['prune'] (taxon bits) the tips carrying those taxa are removed with the library's
+        prune_taxa first, so that the statistic is taken on a tree whose namespace keeps the pruned members"""
+        tree, ids = mk(D, case[key])
+        if case.get("prune"):
+            gone = [t for t in tree.taxon_namespace if tree.taxon_namespace.accession_index(t) in set(case["prune"])]
+            tree.prune_taxa(gone)
+            ids = tu.Ids().assign_preorder(tree)
+        return tree, ids
+
     def run(name, fn, trees=("tree", "tree2")):
         for key in trees:
             if key not in case or case[key] is None:
                 continue
-            tree, ids = mk(D, case[key])
+            tree, ids = build(key)
             try:
                 with time_limit(20):
                     v = fn(tree)
@@ -492,8 +504,10 @@ def op_stats(ctx, D, case):
             except Exception as e:  # noqa
                 results[(name, key)] = (exc_name(e, D, stat=True), None)
 
-    tree0, ids0 = mk(D, toks)
+    tree0, ids0 = build("tree")
     info = Info(tree0, ids0)
+    if case.get("prune"):
+        toks = tu.encode_tree(tree0, ids0)[0]      # the model sees the pruned tree
     n = len(info.leaves)
     nonroot = [i for i in range(info.n) if info.par[i] is not None]
     internal = [i for i in range(info.n) if info.kids[i]]
@@ -713,7 +727,45 @@ def gen_tree(rng, max_leaves, kind=None):
         lens = [root_len] + [F(tu.dyadic(rng)) for _ in range(count_nodes(shape) - 1)]
     else:
         lens = [root_len] + [None if rng.random() < 0.2 else F(tu.dyadic(rng)) for _ in range(count_nodes(shape) - 1)]
-    return tokens_from(shape, lens), kind
+    toks = tokens_from(shape, lens)
+    if rng.random() < 0.5:
+        toks = namespace_variant(rng, toks)
+    return toks, kind
+
+
+def namespace_variant(rng, toks):
+    """the same tree in a taxon namespace that does NOT coincide with its tip set: tips keep distinct taxa but the taxon bits
+    get holes (the namespace then has members that are on no tip, as in a shared namespace or after pruning) and some tips
+    lose their taxon altogether"""
+    n = int(toks[0])
+    out = list(toks)
+    leaves = leaf_indices(toks)
+    bit = 0
+    p_hole = rng.choice([0.0, 0.3, 0.6])
+    p_blank = rng.choice([0.0, 0.0, 0.2])
+    for i in leaves:
+        while rng.random() < p_hole:
+            bit += 1
+        if rng.random() < p_blank:
+            out[1 + n + i] = "-"
+        else:
+            out[1 + n + i] = str(bit)
+            bit += 1
+    if rng.random() < 0.3 and leaves:      # members beyond the last tip as well
+        last = [i for i in leaves if out[1 + n + i] != "-"]
+        if last:
+            out[1 + n + last[-1]] = str(int(out[1 + n + last[-1]]) + rng.randint(1, 4))
+    return out
+
+
+def prune_choice(rng, toks):
+    """taxon bits of some tips to prune, keeping at least two taxon-bearing tips (None when the tree is too small)"""
+    n = int(toks[0])
+    bits = [int(toks[1 + n + i]) for i in leaf_indices(toks) if toks[1 + n + i] != "-"]
+    if len(bits) < 3:
+        return None
+    k = rng.randint(1, len(bits) - 2)
+    return sorted(rng.sample(bits, k))
 
 
 def shuffle_tokens(rng, toks):
@@ -868,6 +920,12 @@ def tree_battery(ctx, D, rng, toks, kind, pending):
     case = {"op": "stats", "tree": toks, "tree2": shuffle_tokens(rng, toks), "gprec": rng.choice(["D", "D", "0", "1/2", "N"])}
     ctx.case(["stats", toks, case["tree2"]], True, sample={"op": "stats", "tree": toks}, kind="stats-" + kind)
     do_case(ctx, D, case, pending)
+    # the same statistics on the tree after prune_taxa (the pruned members stay in the namespace)
+    pr = prune_choice(rng, toks) if rng.random() < 0.5 else None
+    if pr:
+        case = {"op": "stats", "tree": toks, "tree2": shuffle_tokens(rng, toks), "gprec": "N", "prune": pr}
+        ctx.case(["stats-pruned", toks, pr], True, sample={"op": "stats", "tree": toks, "prune": pr}, kind="stats-pruned")
+        do_case(ctx, D, case, pending)
 
 
 def run(ctx):
@@ -934,6 +992,10 @@ def run(ctx):
                 toks = tokens_from(shape, preorder_lens_ultra(rng, shape, None))
                 case = {"op": "stats", "tree": toks, "tree2": shuffle_tokens(rng, toks), "gprec": "D"}
                 ctx.case(["stats-exh", toks], True, kind="stats-exhaustive")
+                do_case(ctx, D, case, pending)
+                t2 = namespace_variant(rng, toks)
+                case = {"op": "stats", "tree": t2, "tree2": shuffle_tokens(rng, t2), "gprec": "D", "prune": prune_choice(rng, t2)}
+                ctx.case(["stats-exh-ns", t2, case["prune"]], True, kind="stats-exhaustive-namespace")
                 do_case(ctx, D, case, pending)
                 cnt2 += 1
                 maybe_flush(20000)
